@@ -86,10 +86,107 @@ Proof.
       * apply th_get_set.
 Qed.
 
-(* ---- direct backend: storage never holds a region that is not served ---- *)
+(* ---- storage never holds a region that is not served (either backend) ---- *)
+(* what the storage holds or is about to write: the keys of the kv and of the write-back batch *)
+Definition keys (l : kvmap) : list Z := map fst l.
+Definition kc (l : kvmap) : Prop := forall k v, In (k, v) l -> k = r_id v.
+Definition held (s : storage) (id : Z) : Prop := In id (keys (s_kv s)) \/ In id (keys (s_batch s)).
+Definition store_ok (s : storage) : Prop :=
+  (s_wb s = false -> s_batch s = []) /\ NoDup (keys (s_kv s)) /\ NoDup (keys (s_batch s)) /\ kc (s_batch s).
 Definition store_sub (h : hstate) : Prop :=
-  s_wb (h_store h) = false /\ NoDup (map fst (s_kv (h_store h))) /\
-  forall id x, load_region (h_store h) id = Some x -> get_region (h_cache h) id <> None.
+  store_ok (h_store h) /\ forall id, held (h_store h) id -> get_region (h_cache h) id <> None.
+
+Lemma keys_iff (l : kvmap) k : In k (keys l) <-> exists v, In (k, v) l.
+Proof.
+  unfold keys. rewrite in_map_iff. split.
+  - intros [[k' v] [E H]]. cbn in E. subst. eauto.
+  - intros [v H]. exists (k, v). auto.
+Qed.
+
+Lemma keys_del l id k : NoDup (keys l) -> (In k (keys (regs_del l id)) <-> k <> id /\ In k (keys l)).
+Proof.
+  intros N. rewrite !keys_iff. split.
+  - intros [v H]. apply (regs_del_in _ _ _ _ N) in H as [NE H]. eauto.
+  - intros [NE [v H]]. exists v. apply (regs_del_in _ _ _ _ N). auto.
+Qed.
+
+Lemma keys_put l id r k : NoDup (keys l) -> (In k (keys (regs_put l id r)) <-> k = id \/ In k (keys l)).
+Proof.
+  intros N. rewrite !keys_iff. split.
+  - intros [v H]. apply (regs_put_in _ _ _ _ _ N) in H as [[E _]|[NE H]]; eauto.
+  - intros H. destruct (Z.eq_dec k id) as [E|NE].
+    + exists r. apply (regs_put_in _ _ _ _ _ N). auto.
+    + destruct H as [E|[v H]]; [contradiction|]. exists v. apply (regs_put_in _ _ _ _ _ N). auto.
+Qed.
+
+Lemma kc_put l r : NoDup (keys l) -> kc l -> kc (kv_put l r).
+Proof. intros N KC k v H. apply (regs_put_in _ _ _ _ _ N) in H as [[E1 E2]|[_ H]]; [subst; reflexivity|auto]. Qed.
+Lemma kc_del l id : NoDup (keys l) -> kc l -> kc (kv_del l id).
+Proof. intros N KC k v H. apply (regs_del_in _ _ _ _ N) in H as [_ H]. auto. Qed.
+
+Lemma load_held s id x : load_region s id = Some x -> held s id.
+Proof.
+  unfold load_region. intros H. left. apply keys_iff. exists x. revert H.
+  induction (s_kv s) as [|[k v] l IH]; cbn; [discriminate|]. destruct (Z.eqb_spec k id) as [->|NE].
+  - intros E. inversion E. auto.
+  - auto.
+Qed.
+
+Lemma flush_keys batch : forall m, NoDup (keys m) -> kc batch ->
+  let m' := fold_left (fun m kv => kv_put m (snd kv)) batch m in
+  NoDup (keys m') /\ forall k, In k (keys m') -> In k (keys m) \/ In k (keys batch).
+Proof.
+  induction batch as [|[k0 v0] b IH]; intros m N KC; cbn.
+  - auto.
+  - assert (KC' : kc b) by (intros k v H; apply KC; right; exact H).
+    assert (E0 : k0 = r_id v0) by (apply KC; left; reflexivity).
+    destruct (IH (kv_put m v0) (regs_put_nodup _ _ _ N) KC') as [N' SUB]. split; [exact N'|].
+    intros k H. apply SUB in H as [H|H]; [|right; right; exact H].
+    unfold kv_put in H. apply (keys_put _ _ _ _ N) in H as [H|H]; [right; left; cbn; congruence|left; exact H].
+Qed.
+
+Lemma flush_ok s : store_ok s -> store_ok (flush s) /\ forall id, held (flush s) id -> held s id.
+Proof.
+  intros (WB & N1 & N2 & KC). destruct (flush_keys (s_batch s) (s_kv s) N1 KC) as [N' SUB].
+  split.
+  - unfold flush, store_ok. cbn [s_wb s_kv s_batch]. split; [reflexivity|]. split; [exact N'|]. split; [constructor|].
+    intros k v H; destruct H.
+  - intros id [H|H]; [|destruct H]. unfold flush in H. cbn [s_kv] in H. apply SUB in H. exact H.
+Qed.
+
+Lemma delete_ok s r : store_ok s ->
+  store_ok (delete_region s r) /\ s_wb (delete_region s r) = s_wb s /\
+  forall id, held (delete_region s r) id <-> (held s id /\ id <> r_id r).
+Proof.
+  intros (WB & N1 & N2 & KC). unfold delete_region, held, store_ok. cbn [s_wb s_kv s_batch].
+  destruct (s_wb s) eqn:W.
+  - split; [|split; [reflexivity|]].
+    + split; [discriminate|]. split; [apply regs_del_nodup, N1|]. split; [apply regs_del_nodup, N2|apply kc_del; auto].
+    + intros id. unfold kv_del. rewrite (keys_del _ _ _ N1), (keys_del _ _ _ N2). tauto.
+  - rewrite (WB eq_refl). split; [|split; [reflexivity|]].
+    + split; [reflexivity|]. split; [apply regs_del_nodup, N1|]. split; [constructor|]. intros k v H; destruct H.
+    + intros id. unfold kv_del. rewrite (keys_del _ _ _ N1). cbn. tauto.
+Qed.
+
+Lemma save_ok s r : store_ok s ->
+  store_ok (save_region s r) /\ forall id, held (save_region s r) id -> id = r_id r \/ held s id.
+Proof.
+  intros OK. pose proof OK as (WB & N1 & N2 & KC). unfold save_region.
+  destruct (s_wb s) eqn:W.
+  - set (s1 := Storage true (s_kv s) (kv_put (s_batch s) r) (s_count s)).
+    assert (OK1 : forall c, store_ok (Storage true (s_kv s) (kv_put (s_batch s) r) c)).
+    { intros c. split; [discriminate|]. split; [exact N1|]. split; [apply regs_put_nodup, N2|apply kc_put; auto]. }
+    assert (H1 : forall c id, held (Storage true (s_kv s) (kv_put (s_batch s) r) c) id -> id = r_id r \/ held s id).
+    { intros c id [H|H]; cbn [s_kv s_batch] in H; [right; left; exact H|].
+      apply (keys_put _ _ _ _ N2) in H as [H|H]; [auto|right; right; exact H]. }
+    destruct (s_count s <? batch_size - 1).
+    + split; [apply OK1|apply H1].
+    + destruct (flush_ok _ (OK1 (s_count s))) as [A B]. split; [exact A|]. intros id H. apply B in H. apply H1 in H. exact H.
+  - split.
+    + split; [intros _; apply WB; reflexivity|]. split; [apply regs_put_nodup, N1|]. split; [exact N2|exact KC].
+    + intros id [H|H]; cbn [s_kv s_batch] in H; [|right; right; exact H].
+      apply (keys_put _ _ _ _ N1) in H as [H|H]; [auto|right; left; exact H].
+Qed.
 
 Lemma flags_kv_cache r origin : f_kv (compute_flags r origin) = true -> f_cache (compute_flags r origin) = true.
 Proof.
@@ -97,38 +194,34 @@ Proof.
   apply orb_true_iff in H as [H|H]; [apply orb_true_iff in H as [H|H]|]; rewrite H; rewrite ?orb_true_r; reflexivity.
 Qed.
 
-Lemma fold_dels s ov : s_wb s = false -> NoDup (map fst (s_kv s)) ->
+Lemma fold_dels s ov : store_ok s ->
   let s' := fold_left apply_sop (map SDel ov) s in
-  s_wb s' = false /\ NoDup (map fst (s_kv s')) /\
-  forall id x, load_region s' id = Some x <-> (load_region s id = Some x /\ ~ In id (map r_id ov)).
+  store_ok s' /\ forall id, held s' id <-> (held s id /\ ~ In id (map r_id ov)).
 Proof.
-  revert s. induction ov as [|o ov IH]; intros s W N; cbn.
-  - split; [exact W|]. split; [exact N|]. intros id x. tauto.
-  - set (s1 := delete_region s o).
-    assert (W1 : s_wb s1 = false) by exact W.
-    assert (N1 : NoDup (map fst (s_kv s1))) by (apply regs_del_nodup, N).
-    destruct (IH s1 W1 N1) as (A & B & C). split; [exact A|]. split; [exact B|].
-    intros id x. rewrite C. unfold load_region, s1, delete_region, kv_del. cbn [s_kv].
-    rewrite !(regs_get_in _ _ _ N), (regs_get_in _ _ _ (regs_del_nodup _ _ N)), (regs_del_in _ _ _ _ N).
-    split; [intros [[NE H] NI]; split; [exact H|intros [E|H']; [congruence|contradiction]]
-           |intros [H NI]; split; [split; [intros E; apply NI; left; congruence|exact H]|intros H'; apply NI; right; exact H']].
+  revert s. induction ov as [|o ov IH]; intros s OK; cbn.
+  - split; [exact OK|]. intros id. tauto.
+  - destruct (delete_ok s o OK) as (OK1 & _ & H1).
+    destruct (IH (delete_region s o) OK1) as (A & C). split; [exact A|].
+    intros id. rewrite C, H1. split.
+    + intros [[H NE] NI]. split; [exact H|]. intros [E|H']; [congruence|contradiction].
+    + intros [H NI]. split; [split; [exact H|intros E; apply NI; left; congruence]|intros H'; apply NI; right; exact H'].
 Qed.
 
 Theorem storage_subset_seq_pf h r : Inv (h_cache h) -> wf_region r = true -> th_get (h_threads h) (-1) = None ->
   store_sub h -> store_sub (fst (heartbeat h r)).
 Proof.
-  intros I W TG (WB & N & SUB). rewrite (heartbeat_seq _ _ I W TG). unfold seq_result.
-  destruct (precheck (h_cache h) r) as [origin err]. destruct err; [cbn; split; [exact WB|split; [exact N|exact SUB]]|].
+  intros I W TG (OK & SUB). rewrite (heartbeat_seq _ _ I W TG). unfold seq_result.
+  destruct (precheck (h_cache h) r) as [origin err]. destruct err; [cbn; split; [exact OK|exact SUB]|].
   cbv zeta. set (fl := compute_flags r origin).
-  destruct (negb (f_kv fl) && negb (f_cache fl) && negb (f_new fl)); [cbn; split; [exact WB|split; [exact N|exact SUB]]|].
+  destruct (negb (f_kv fl) && negb (f_cache fl) && negb (f_new fl)); [cbn; split; [exact OK|exact SUB]|].
   destruct (f_cache fl) eqn:FC.
   - destruct (Inv_set _ r I W) as (I' & ET & EO).
     destruct (set_region (h_cache h) r) as [c' ov] eqn:SR. cbn [fst snd] in *.
     unfold store_ops. rewrite fold_left_app.
-    destruct (fold_dels (h_store h) ov WB N) as (A & B & C).
+    destruct (fold_dels (h_store h) ov OK) as (A & C).
     set (s1 := fold_left apply_sop (map SDel ov) (h_store h)) in *.
-    assert (KEEP : forall id x, load_region s1 id = Some x -> get_region c' id <> None).
-    { intros id x L. apply C in L as [L NI]. specialize (SUB id x L).
+    assert (KEEP : forall id, held s1 id -> get_region c' id <> None).
+    { intros id L. apply C in L as [L NI]. specialize (SUB id L).
       destruct (get_region (h_cache h) id) as [y|] eqn:GY; [|congruence]. clear SUB.
       destruct I as (_ & HR & (_ & _ & _)). destruct I' as (_ & HR' & _).
       apply (regs_rep_get _ _ _ _ HR) in GY as [Hy Ey]. fold (cached (h_cache h)) in Hy.
@@ -142,49 +235,34 @@ Proof.
         apply in_map_iff. exists y. split; [exact Ey|]. unfold displaced. apply filter_In. split; [exact Hy|].
         rewrite Ey. replace (id =? r_id r) with false by (symmetry; apply Z.eqb_neq, NE). exact O. }
     destruct (f_kv fl); cbn [fold_left h_cache h_store].
-    + unfold apply_sop, save_region. rewrite A. split; [reflexivity|]. cbn [s_kv s_wb]. split; [apply regs_put_nodup, B|].
-      intros id x L. unfold load_region in L. cbn [s_kv] in L. unfold kv_put in L.
-      apply (regs_get_in _ _ _ (regs_put_nodup _ _ _ B)) in L. apply (regs_put_in _ _ _ _ _ B) in L as [[-> ->]|[NE L]].
-      * destruct I' as (_ & HR' & _). intros GN. apply (regs_rep_get_none _ _ _ HR' GN r); [|reflexivity].
-        fold (cached c'). rewrite ET. apply spec_tree_in. left; reflexivity.
-      * apply (KEEP id x). unfold load_region. apply (regs_get_in _ _ _ B). exact L.
-    + split; [exact A|]. split; [exact B|exact KEEP].
+    + unfold apply_sop. destruct (save_ok s1 r A) as [A' B']. split; [exact A'|].
+      intros id L. apply B' in L as [->|L]; [|apply KEEP, L].
+      destruct I' as (_ & HR' & _). intros GN. apply (regs_rep_get_none _ _ _ HR' GN r); [|reflexivity].
+      fold (cached c'). rewrite ET. apply spec_tree_in. left; reflexivity.
+    + split; [exact A|exact KEEP].
   - assert (FK : f_kv fl = false).
     { destruct (f_kv fl) eqn:FK; [|reflexivity]. unfold fl in FK, FC. rewrite (flags_kv_cache _ _ FK) in FC. discriminate. }
-    unfold store_ops. rewrite FK. cbn. split; [exact WB|split; [exact N|exact SUB]].
+    unfold store_ops. rewrite FK. cbn. split; [exact OK|exact SUB].
 Qed.
 
-(* the regions displaced by an accepted sequential heartbeat are gone from storage when it returns *)
+(* the regions displaced by an accepted sequential heartbeat are gone from storage (and from the pending batch)
+   when it returns *)
 Theorem displaced_gone_from_storage_seq_pf h r x :
   Inv (h_cache h) -> wf_region r = true -> th_get (h_threads h) (-1) = None -> store_sub h ->
   get_region (h_cache h) (r_id x) <> None -> get_region (h_cache (fst (heartbeat h r))) (r_id x) = None ->
-  load_region (h_store (fst (heartbeat h r))) (r_id x) = None.
+  load_region (h_store (fst (heartbeat h r))) (r_id x) = None /\ ~ held (h_store (fst (heartbeat h r))) (r_id x).
 Proof.
-  intros I W TG SS _ GN. destruct (storage_subset_seq_pf h r I W TG SS) as (_ & _ & SUB).
-  destruct (load_region _ (r_id x)) as [y|] eqn:L; [|reflexivity]. exfalso. eapply SUB; eauto.
+  intros I W TG SS _ GN. destruct (storage_subset_seq_pf h r I W TG SS) as (_ & SUB).
+  assert (NH : ~ held (h_store (fst (heartbeat h r))) (r_id x)) by (intros H; exact (SUB _ H GN)).
+  split; [|exact NH].
+  destruct (load_region _ (r_id x)) as [y|] eqn:L; [|reflexivity]. exfalso. apply NH. eapply load_held; eauto.
 Qed.
 
-(* ---- write-back backend: the clause is false (DeleteRegion does not look at the batch) ---- *)
-Definition storage_subset_full : Prop :=
-  forall wb rs, Forall (fun r => wf_region r = true) rs ->
-  let h := fold_left (fun h o => fst (h_step h o)) (map OHb rs ++ [OFlush]) (h_init wb) in
-  forall id x, load_region (h_store h) id = Some x -> get_region (h_cache h) id <> None.
-
-Definition witness_writeback : list region :=
-  [Region 1 (K [97]) (K [99]) [Peer 11 1 false; Peer 12 2 false] 11 [] 10 1 1 1 1;
-   Region 2 (K [97]) (K [99]) [Peer 21 1 false; Peer 22 2 false] 21 [] 10 2 1 1 2].
-
-Theorem storage_subset_refuted_pf : ~ storage_subset_full.
-Proof.
-  intros H. specialize (H true witness_writeback).
-  assert (W : Forall (fun r => wf_region r = true) witness_writeback) by (repeat constructor).
-  specialize (H W 1). cbn zeta in H.
-  set (h := fold_left _ _ _) in H.
-  assert (E : load_region (h_store h) 1 = Some (Region 1 (K [97]) (K [99]) [Peer 11 1 false; Peer 12 2 false] 11 [] 10 1 1 1 1)) by (vm_compute; reflexivity).
-  specialize (H _ E). apply H. vm_compute. reflexivity.
-Qed.
-
-(* ---- any number of heartbeats handled one at a time, direct backend ---- *)
+(* ---- any number of heartbeats handled one at a time, flushes anywhere, either backend ---- *)
+Definition seq_op (o : hop) : Prop :=
+  match o with OHb r => wf_region r = true | OFlush => True | _ => False end.
+Definition seq_ops (wb : bool) (ops : list hop) : hstate :=
+  fold_left (fun h o => fst (h_step h o)) ops (h_init wb).
 Definition seq_run (wb : bool) (rs : list region) : hstate :=
   fold_left (fun h r => fst (heartbeat h r)) rs (h_init wb).
 
@@ -197,22 +275,72 @@ Proof.
   destruct (Inv_set _ r I W) as (I' & _ & _). destruct (set_region (h_cache h) r) as [c' ov]. auto.
 Qed.
 
-Theorem storage_subset_run_pf rs : Forall (fun r => wf_region r = true) rs ->
-  let h := seq_run false rs in
+Lemma hb_step_fst h r : fst (h_step h (OHb r)) = fst (heartbeat h r).
+Proof. cbn. destruct (heartbeat h r). reflexivity. Qed.
+
+Theorem storage_subset_ops_pf wb ops : Forall seq_op ops ->
+  let h := seq_ops wb ops in
   Inv (h_cache h) /\ h_threads h = [] /\ store_sub h.
 Proof.
-  unfold seq_run.
-  assert (G : forall rs h, Forall (fun r => wf_region r = true) rs ->
+  unfold seq_ops.
+  assert (G : forall ops h, Forall seq_op ops ->
               Inv (h_cache h) -> h_threads h = [] -> store_sub h ->
-              let h' := fold_left (fun h r => fst (heartbeat h r)) rs h in
+              let h' := fold_left (fun h o => fst (h_step h o)) ops h in
               Inv (h_cache h') /\ h_threads h' = [] /\ store_sub h').
-  { clear rs. induction rs as [|r rs IH]; intros h F I T S; cbn; [auto|]. inversion F as [|? ? W F']; subst.
-    assert (TG : th_get (h_threads h) (-1) = None) by (rewrite T; reflexivity).
-    apply IH; auto.
-    - rewrite (heartbeat_seq _ _ I W TG). apply (seq_result_keeps _ _ I W).
-    - rewrite (heartbeat_seq _ _ I W TG). rewrite (proj2 (seq_result_keeps _ _ I W)). exact T.
-    - apply storage_subset_seq_pf; auto. }
+  { clear ops. induction ops as [|o ops IH]; intros h F I T SS; cbn [fold_left]; [auto|].
+    inversion F as [|? ? W F']; subst.
+    destruct o as [r| | | | |]; cbn in W; try contradiction.
+    - assert (TG : th_get (h_threads h) (-1) = None) by (rewrite T; reflexivity).
+      rewrite hb_step_fst. apply IH; auto.
+      + rewrite (heartbeat_seq _ _ I W TG). apply (seq_result_keeps _ _ I W).
+      + rewrite (heartbeat_seq _ _ I W TG). rewrite (proj2 (seq_result_keeps _ _ I W)). exact T.
+      + apply storage_subset_seq_pf; auto.
+    - apply IH; auto. cbn. destruct SS as [OK SUB]. destruct (flush_ok _ OK) as [A B].
+      split; [exact A|]. cbn [h_store h_cache]. intros id H. apply SUB, B, H. }
   intros F. apply G; auto.
   - apply Inv_empty.
-  - split; [reflexivity|]. split; [constructor|]. intros id x H. discriminate H.
+  - split.
+    + cbn. split; [reflexivity|]. split; [constructor|]. split; [constructor|]. intros k v H; destruct H.
+    + intros id [[]|[]].
 Qed.
+
+Lemma seq_run_ops wb rs : seq_run wb rs = seq_ops wb (map OHb rs).
+Proof.
+  unfold seq_run, seq_ops. generalize (h_init wb). induction rs as [|r rs IH]; intros h; cbn [map fold_left]; [reflexivity|].
+  rewrite hb_step_fst. apply IH.
+Qed.
+
+Theorem storage_subset_run_pf wb rs : Forall (fun r => wf_region r = true) rs ->
+  let h := seq_run wb rs in
+  Inv (h_cache h) /\ h_threads h = [] /\ store_sub h.
+Proof.
+  intros F. cbv zeta. rewrite seq_run_ops. apply storage_subset_ops_pf.
+  apply Forall_forall. intros o H. apply in_map_iff in H as [r [<- H]]. cbn. exact (proj1 (Forall_forall _ _) F r H).
+Qed.
+
+(* ---- the clause that was false before commit e76651c (DeleteRegion did not look at the write-back batch):
+        heartbeats one at a time on either backend, then a flush: storage holds served regions only ---- *)
+Definition storage_subset_full : Prop :=
+  forall wb rs, Forall (fun r => wf_region r = true) rs ->
+  let h := fold_left (fun h o => fst (h_step h o)) (map OHb rs ++ [OFlush]) (h_init wb) in
+  forall id x, load_region (h_store h) id = Some x -> get_region (h_cache h) id <> None.
+
+Theorem storage_subset_full_pf : storage_subset_full.
+Proof.
+  intros wb rs F. cbv zeta. intros id x L.
+  assert (FO : Forall seq_op (map OHb rs ++ [OFlush])).
+  { apply Forall_app. split; [|repeat constructor].
+    apply Forall_forall. intros o H. apply in_map_iff in H as [r [<- H]]. cbn. exact (proj1 (Forall_forall _ _) F r H). }
+  destruct (storage_subset_ops_pf wb _ FO) as (_ & _ & (_ & SUB)). apply SUB. eapply load_held; eauto.
+Qed.
+
+(* regression case: the history that refuted the clause before the repair (region 1 saved to the batch, displaced
+   by region 2, flush) now leaves only region 2 in storage *)
+Definition witness_writeback : list region :=
+  [Region 1 (K [97]) (K [99]) [Peer 11 1 false; Peer 12 2 false] 11 [] 10 1 1 1 1;
+   Region 2 (K [97]) (K [99]) [Peer 21 1 false; Peer 22 2 false] 21 [] 10 2 1 1 2].
+
+Example witness_writeback_behaves :
+  let h := fold_left (fun h o => fst (h_step h o)) (map OHb witness_writeback ++ [OFlush]) (h_init true) in
+  load_region (h_store h) 1 = None /\ map fst (s_kv (h_store h)) = [2] /\ map r_id (cached (h_cache h)) = [2].
+Proof. vm_compute. auto. Qed.
